@@ -573,16 +573,23 @@ def _extract_named_added_loss_terms(module, memo=None, prefix=""):
 
 
 def _extract_named_priors(
-    module: nn.Module, prefix: str = ""
+    module: nn.Module, memo: Optional[MutableSet[Prior]] = None, prefix: str = ""
 ) -> Iterator[tuple[str, nn.Module, Prior, Closure, SettingClosure | None]]:
+    # A module that is reachable under several names (e.g. a base kernel that is also kept as an attribute of
+    # the model) must contribute each of its priors once, like its parameters, constraints and added loss terms.
+    if memo is None:
+        memo = set()
     if isinstance(module, Module):
         for name, (prior, closure, inv_closure) in module._priors.items():
-            if prior is not None:
+            if prior is not None and prior not in memo:
+                memo.add(prior)
                 full_name = ("." if prefix else "").join([prefix, name])
                 yield full_name, module, prior, closure, inv_closure
     for mname, module_ in module.named_children():
         submodule_prefix = prefix + ("." if prefix else "") + mname
-        for name, parent_module, prior, closure, inv_closure in _extract_named_priors(module_, prefix=submodule_prefix):
+        for name, parent_module, prior, closure, inv_closure in _extract_named_priors(
+            module_, memo=memo, prefix=submodule_prefix
+        ):
             yield name, parent_module, prior, closure, inv_closure
 
 
